@@ -104,14 +104,14 @@ class ExceptIf(ConclusionSelector):
         self._yield_when_false_ = yield_when_false
 
         # constrain left values by available sources
-        left_values = self.left._evaluate__(sources, yield_when_false=self._yield_when_false_)
+        left_values = self.left._evaluate__(sources, yield_when_false=yield_when_false)
         for left_value in left_values:
 
             left_value.update(sources)
 
             self._is_false_ = self.left._is_false_
             if self._is_false_:
-                if self._yield_when_false_:
+                if yield_when_false:
                     if not self._is_duplicate_output_(left_value):
                         yield left_value
                 continue
